@@ -3,7 +3,7 @@
 From DV Require Import Base.Prelude Model.NameM Model.ZoneTextM.
 From DV Require Import Proofs.ZoneTextBase Proofs.ZoneTextInv Proofs.ZoneTextRespell Proofs.ZoneTextLex
   Proofs.ZoneTextAcc Proofs.ZoneTextRecord Proofs.ZoneTextSweep Proofs.ZoneTextRoundtrip Proofs.ZoneTextNames
-  Proofs.ZoneTextParens.
+  Proofs.ZoneTextParens Proofs.ZoneTextRead Proofs.ZoneTextGenerate.
 From DV Require Import Proofs.NameValid Proofs.NameText.
 From Coq Require Import Permutation.
 Open Scope Z_scope.
@@ -146,6 +146,23 @@ Theorem respell_parens : forall c s ts ps rest f,
 Proof. exact respell_parens_proof. Qed.
 Print Assumptions respell_parens.
 
+(* $GENERATE versus its expansion.  `exp_fold` reads, one record line after the other, the lines
+   `<lhs with $ substituted> [ttl] [class] type <tokens of rhs with $ substituted>` for the indices of the
+   range; a statement that loads (every generated name inside the origin, type other than SOA)
+   leaves exactly the reader state (zone, last name, TTL state) that these lines leave. *)
+Theorem respell_generate : forall c s co zo t0 lhs ttlo clso tyt rhs start stop step ttl ty lm rm s',
+  corigin s = Some co -> zorigin s = Some zo -> is_absolute co = true ->
+  grange_from_text (tokval t0) = Ok (start, stop, step) ->
+  ttl_given s ttlo ttl ->
+  (forall cv, clso = Some cv -> class_from_text cv = Some (c_class c)) ->
+  type_from_text tyt = Some ty -> class_from_text tyt = None -> ttl_from_text tyt = Lib eBadTTL ->
+  ty <> tSOA ->
+  parse_modify lhs = Ok lm -> parse_modify rhs = Ok rm ->
+  generate_line c s (t0 :: TId lhs :: opt_tok ttlo ++ opt_tok clso ++ [TId tyt; TId rhs]) false = Ok (s', Some []) ->
+  exp_fold (Z.to_nat ((stop - start) / step + 1)) start step c s lhs rhs lm rm ttlo clso tyt = Ok s'.
+Proof. exact respell_generate_proof. Qed.
+Print Assumptions respell_generate.
+
 (* ---------- non-vacuity: the hypotheses are satisfiable, the model really loads zones ---------- *)
 Definition ex_origin : name := [[101; 120]; []].   (* "ex." *)
 Definition ex_cfg := mkcfg (Some ex_origin) true 1 true.
@@ -243,3 +260,23 @@ Example pr_hyps :
   forallb tok_clean pr_ts = true /\ mvalid 0 pr_ps = true /\ mtoks pr_ps = pr_ts /\
   starts_ws (mrender pr_ps ++ [10]) = starts_ws (mrender (single_line pr_ts) ++ [10]).
 Proof. repeat split; reflexivity. Qed.
+
+(* non-vacuity of respell_generate:  $GENERATE 1-5/2 h${0,2} IN A 10.0.0.$   after  $TTL 300 *)
+Definition gn_state : rstate := set_dttl (init_state (mkcfg (Some ex_origin) true 1 false)) 300.
+Example gn_hyps :
+  let c := mkcfg (Some ex_origin) true 1 false in
+  let lhs := [104; 36; 123; 48; 44; 50; 125] in
+  let rhs := [49; 48; 46; 48; 46; 48; 46; 36] in
+  corigin gn_state = Some ex_origin /\ zorigin gn_state = Some ex_origin /\
+  grange_from_text [49; 45; 53; 47; 50] = Ok (1, 5, 2) /\
+  ttl_given gn_state None 300 /\
+  type_from_text [65] = Some tA /\ class_from_text [65] = None /\ ttl_from_text [65] = Lib eBadTTL /\
+  (exists lm rm s', parse_modify lhs = Ok lm /\ parse_modify rhs = Ok rm /\
+     generate_line c gn_state [TId [49; 45; 53; 47; 50]; TId lhs; TId [73; 78]; TId [65]; TId rhs] false
+       = Ok (s', Some []) /\ length (zn s') = 3%nat).
+Proof.
+  cbv zeta. repeat split; try reflexivity.
+  - left. split; reflexivity.
+  - eexists _, _, _. split; [vm_compute; reflexivity|]. split; [vm_compute; reflexivity|].
+    split; vm_compute; reflexivity.
+Qed.
